@@ -21,8 +21,11 @@ def claimed():
     return sorted(p[:-3].upper() for p in os.listdir(os.path.join(VERIF, "sa", "props")) if re.match(r"c\d\d\.py$", p))
 
 
+SUBDIR = "seeded"
+
+
 def run_one(sid, checks, tier):
-    sdir = os.path.join(VERIF, "seeded", sid)
+    sdir = os.path.join(VERIF, SUBDIR, sid)
     tmp = tempfile.mkdtemp(prefix="seed-%s-" % sid, dir="/tmp")
     try:
         dst = os.path.join(tmp, "repo")
@@ -48,12 +51,15 @@ def run_one(sid, checks, tier):
 
 
 def main(argv):
+    global SUBDIR
     tier = "quick"
     allc = False
     ids = []
     it = iter(argv)
     for a in it:
-        if a == "--all":
+        if a == "--twins":
+            SUBDIR = "twins"
+        elif a == "--all":
             allc = True
         elif a == "--tier":
             tier = next(it)
@@ -61,10 +67,10 @@ def main(argv):
             ids.append(a)
     have = claimed()
     if not ids:
-        ids = sorted(d for d in os.listdir(os.path.join(VERIF, "seeded")) if os.path.isdir(os.path.join(VERIF, "seeded", d)))
+        ids = sorted(d for d in os.listdir(os.path.join(VERIF, SUBDIR)) if os.path.isdir(os.path.join(VERIF, SUBDIR, d)))
     jobs = []
     for sid in ids:
-        meta = json.load(open(os.path.join(VERIF, "seeded", sid, "meta.json")))
+        meta = json.load(open(os.path.join(VERIF, SUBDIR, sid, "meta.json")))
         checks = have if allc else [c for c in [meta["property"]] + meta.get("also_run", []) if c in have]
         jobs.append((sid, checks))
     results = {}
@@ -73,6 +79,16 @@ def main(argv):
             results[sid] = out
             det = sorted("%s:%s" % (c, r) for c, v in out.items() if isinstance(v, dict) and v.get("exit") == 1 for r in (v["rules"] or ["?"]))
             errs = sorted(c for c, v in out.items() if isinstance(v, dict) and v.get("exit") == 2)
+            if SUBDIR == "twins":
+                print("%-9s %s%s" % (sid, ("FALSE ALARM " + ", ".join(det)) if det else "silent", ("   [analysis-error: %s]" % ",".join(errs)) if errs else ""))
+                sys.stdout.flush()
+                mp = os.path.join(VERIF, SUBDIR, sid, "meta.json")
+                meta = json.load(open(mp))
+                meta.setdefault("checks", {}).update({c: ("false alarm: " + ",".join(v["rules"]) if v.get("exit") == 1 else
+                                                          "analysis-error: " + v.get("error", "")[:200] if v.get("exit") == 2 else "silent")
+                                                      for c, v in out.items() if isinstance(v, dict) and "exit" in v})
+                json.dump(meta, open(mp, "w"), indent=1)
+                continue
             print("%-7s %s%s" % (sid, ", ".join(det) if det else "NOT DETECTED", ("   [analysis-error: %s]" % ",".join(errs)) if errs else ""))
             sys.stdout.flush()
             mp = os.path.join(VERIF, "seeded", sid, "meta.json")
@@ -89,7 +105,7 @@ def main(argv):
                 meta.pop("analysis_error_in", None)
             json.dump(meta, open(mp, "w"), indent=1)
             open(mp, "a").write("\n")
-    mpath = os.path.join(VERIF, "seeded", "MATRIX.json")
+    mpath = os.path.join(VERIF, SUBDIR, "MATRIX.json")
     matrix = json.load(open(mpath)) if os.path.exists(mpath) else {}
     for sid, out in results.items():
         matrix.setdefault(sid, {}).update(out)
